@@ -41,7 +41,7 @@ PINS = {
 }
 # (random cases per shard, shards); every shard also runs the directed cases and its part of the
 # exhaustive chunkings of all streams of at most 12 bytes
-SIZES = {"quick": (1500, 8), "thorough": (20000, 16)}
+SIZES = {"quick": (1500, 8), "thorough": (30000, 16)}
 SPARE_WHAT = "spare_capacity_mut"
 
 
